@@ -12,11 +12,13 @@ Inductive case :=
 | KFrom (f : Z -> Z -> Z) (d rate obs : Z)           (* ns -> ticks *)
 | KInl (s : inline_site) (a b c obs : Z)             (* an inline a * b / c site, evaluated by its enclosing real function
                                                         on the operands a b c, yielded obs *)
-| KFact (lo hi obs_lo obs_hi : Z)
-| KTs (k : ts_branch) (rate pts i obs : Z).          (* the real mpegts.FromStream, branch k on a format of clock rate `rate`:
-                                                        the PES header written for frame i of a unit stamped pts carries obs
-                                                        (raw 33 bits, parsed from the produced transport stream) *)                   (* a library range fact [lo, hi] used by an inline site, and the extreme
+| KFact (lo hi obs_lo obs_hi : Z)                    (* a library range fact [lo, hi] used by an inline site, and the extreme
                                                         values observed over the producer's whole input domain *)
+| KTs (k : ts_branch) (rate pts i obs : Z)           (* the real mpegts.FromStream, branch k on a format of clock rate `rate`:
+                                                        the PES header written for frame i of a unit stamped pts carries obs
+                                                        (raw 33 bits, parsed from the produced transport stream) *)
+| KTsRec (k : ts_branch) (rate pts i obs : Z).       (* the same for the MPEG-TS recorder (recorder.formatMPEGTS, its own copy of
+                                                        the branches): PES headers of the recorded .ts file *)
 
 Definition mismatch (c : case) : bool :=
   match c with
@@ -26,6 +28,7 @@ Definition mismatch (c : case) : bool :=
   | KInl s a b c obs => negb (is_f s a b c =? obs)
   | KFact _ _ _ _ => false
   | KTs k rate pts i obs => negb (pes33 (ts_written protocols_mpegts__multiplyAndDivide k rate pts i) =? obs)
+  | KTsRec k rate pts i obs => negb (pes33 (ts_written recorder__multiplyAndDivide k rate pts i) =? obs)
   end.
 
 Definition ok_rate (r : Z) : bool := (1 <=? r) && (r <=? 4294967296).
@@ -49,5 +52,5 @@ Definition spec_fail (c : case) : bool :=
   (* range fact: the real producer stays inside the range the theorem assumes *)
   | KFact lo hi obs_lo obs_hi => (obs_lo <? lo) || (hi <? obs_hi) || (obs_hi <? obs_lo)
   (* written timestamp: the exact conversion to 90 kHz of the POSITION of that frame (unit timestamp + i frame lengths) *)
-  | KTs k rate pts i obs => ts_judged rate pts i && negb (ts_obs_ok k rate pts i obs)
+  | KTs k rate pts i obs | KTsRec k rate pts i obs => ts_judged rate pts i && negb (ts_obs_ok k rate pts i obs)
   end.
